@@ -94,7 +94,8 @@ class ElectronicControlUnit:
         :param callback:
             The callback to be removed from the timer event list
         """
-        for event in self._timer_events:
+        # iterate over a copy: removing from the list that is being iterated skips entries
+        for event in list(self._timer_events):
             if event['callback'] == callback:
                 self._timer_events.remove( event )
         self._job_thread_wakeup()
@@ -150,7 +151,8 @@ class ElectronicControlUnit:
         :param callback:
             Function to call when message is received.
         """
-        for dic in self._subscribers:
+        # iterate over a copy: removing from the list that is being iterated skips entries
+        for dic in list(self._subscribers):
             if dic['cb'] == callback:
                 self._subscribers.remove(dic)
 
@@ -309,7 +311,11 @@ class ElectronicControlUnit:
             next_wakeup = self.j1939_dll.async_job_thread(now)
 
             # check timer events
-            for event in self._timer_events:
+            # iterate over a copy: callbacks and other threads add and remove entries meanwhile
+            for event in list(self._timer_events):
+                if not any(e is event for e in self._timer_events):
+                    # removed in the meantime (e.g. by a callback served earlier in this pass)
+                    continue
                 if event['deadline'] > now:
                     if next_wakeup > event['deadline']:
                         next_wakeup = event['deadline']
@@ -325,8 +331,9 @@ class ElectronicControlUnit:
                         if next_wakeup > event['deadline']:
                             next_wakeup = event['deadline']
                     else:
-                        # remove from list
-                        self._timer_events.remove( event )
+                        # remove from list (the callback may have removed itself already)
+                        if event in self._timer_events:
+                            self._timer_events.remove( event )
 
             time_to_sleep = next_wakeup - time.time()
             if time_to_sleep > 0:
